@@ -491,6 +491,23 @@ func (g *gen) step1() {
 		if i < 0 {
 			return
 		}
+		if g.r.Chance(1, 2) {
+			// each dimension equally often: the dimension first, then a receiver that has it
+			kd := g.r.Range(1, 4)
+			k := g.pick(func(k int) bool { return len(g.infos[k].attrs[kd]) > 0 })
+			if k < 0 {
+				// nobody carries that dimension yet: give i an attribute of it
+				n := g.infos[i].nverts
+				if n == 0 {
+					n = g.r.Range(1, 5)
+				}
+				k = g.push(Op{Op: "setattr", I: i, K: kd, Name: hx.Pick(g.r, kindNames[kd]), Data: g.rows(n, kd), Spare: g.spare()})
+			}
+			if k >= 0 {
+				g.copyOverKind(k, kd)
+			}
+			return
+		}
 		kd, nm, ok := g.someAttr(j, 0)
 		if !ok || (g.infos[i].nverts != g.infos[j].nverts && g.infos[i].nverts != 0 && g.r.Chance(2, 3)) {
 			return // (one time in three: a copy between meshes of different size, the result is ill-formed)
@@ -661,6 +678,26 @@ func (g *gen) crossDim(i int) int {
 		return g.push(Op{Op: "copyattr", I: i, J: j, K: other, Name: nm})
 	}
 	return g.push(Op{Op: "setattr", I: i, K: other, Name: nm, Data: g.rows(n, other), Spare: g.spare()})
+}
+
+// copyOver: CopyFloatNAttribute where the receiver ALREADY carries the attribute (same name, same dimension, same
+// length) with other values: the copy replaces an attribute instead of adding one
+func (g *gen) copyOverKind(i, want int) int {
+	kd, nm, ok := g.someAttr(i, want)
+	if !ok {
+		return -1
+	}
+	n := g.infos[i].nverts
+	// the source: some member (often a relative of i) given other values under the same name
+	j := g.pick(func(k int) bool { return g.infos[k].nverts == n })
+	if j < 0 {
+		j = i
+	}
+	src := g.push(Op{Op: "setattr", I: j, K: kd, Name: nm, Data: g.rows(n, kd), Spare: g.spare()})
+	if src < 0 {
+		return -1
+	}
+	return g.push(Op{Op: "copyattr", I: i, J: src, K: kd, Name: nm})
 }
 
 // shareMats: member i gets the material slice member j hands out through Materials()
